@@ -29,6 +29,7 @@ ASSUMPTIONS = [
     "explicit types: the value sets observed by the reference engine within 12 iterations are declared for the finite variables the generator designed",
     "numeric options: deviation bound 1e4 * eps * (n+1) * max(1,|value|) relative - generous for a correct implementation, O(1) errors fire",
 ]
+UNINIT_COUNTERFACTUAL = True   # worker: unattributed violations are re-run with explicit initial assignments (diagnose.attribute_uninit)
 TIMEOUT = {"quick": 30, "thorough": 240}
 DEADLINE = {"quick": 80, "thorough": 1000}
 MIN_DECIDING = {"quick": 15, "thorough": 150}
